@@ -87,3 +87,7 @@ claim("C05",
       "Leaf iterators (bool slices, eight numeric slice kinds, Edge, Node) run on an emulated reflect.Value with symbolic elements; the emitted events go through the real rules validator and a recorder; z3 shows acceptance and that the typed array carries exactly the elements (bit i = element i, little-endian element bytes).",
       "reflect.Value is the engine's emulation; GetIteratorForType is supplied by the harness. Struct/map/list/pointer iterators, records, omit rules and recursion support are outside reach.",
       "DESIGN.md §5 C05")
+claim("C23",
+      "The encoder half of C23: the real cte.EncoderEventReceiver (context, decorators, array engine, writer) encodes a typed / bit / string-like / media / custom-binary array delivered whole and delivered in 2 chunks with every chunk boundary and every data-event split point (mid-element, mid-character), with symbolic content; z3 shows both texts are byte-identical.",
+      "fmt.Sprintf on symbolic integers is an engine model proved equal to strconv by the self-test (T00). Float arrays (float text) and decode-then-re-encode idempotence (ANTLR) are outside reach. Quick bounds are small (2 elements / 2 bytes) because every digit count, bit and character class forks.",
+      "DESIGN.md §5 C23")
